@@ -5,115 +5,34 @@ package main
 
 import (
 	"math/big"
-	"sort"
 
 	"github.com/golang/geo/s2"
+	"verifharness/internal/exactref"
 )
 
-type rvec [3]*big.Rat // x, y, z
+// The exact-rational core and the perturbation oracle live in harness/internal/exactref (shared
+// with the C03 observer); the names used by this observer are kept as thin aliases.
+type rvec = exactref.RVec
 
-func ratOf(f float64) *big.Rat { return new(big.Rat).SetFloat64(f) } // exact for finite f
+func ratOf(f float64) *big.Rat { return exactref.RatOf(f) }
+func rv(p s2.Point) rvec       { return exactref.RV(p) }
 
-func rv(p s2.Point) rvec { return rvec{ratOf(p.X), ratOf(p.Y), ratOf(p.Z)} }
+func rmul(a, b *big.Rat) *big.Rat { return exactref.Mul(a, b) }
+func rsub(a, b *big.Rat) *big.Rat { return exactref.Sub(a, b) }
+func radd(a, b *big.Rat) *big.Rat { return exactref.Add(a, b) }
 
-func rmul(a, b *big.Rat) *big.Rat { return new(big.Rat).Mul(a, b) }
-func rsub(a, b *big.Rat) *big.Rat { return new(big.Rat).Sub(a, b) }
-func radd(a, b *big.Rat) *big.Rat { return new(big.Rat).Add(a, b) }
+func rdot(a, b rvec) *big.Rat    { return exactref.Dot(a, b) }
+func rdet(a, b, c rvec) *big.Rat { return exactref.Det(a, b, c) }
 
-func rdot(a, b rvec) *big.Rat {
-	return radd(radd(rmul(a[0], b[0]), rmul(a[1], b[1])), rmul(a[2], b[2]))
-}
+func oracleDetSign(a, b, c s2.Point) int { return exactref.DetSign(a, b, c) }
+func lexCmp(a, b s2.Point) int           { return exactref.LexCmp(a, b) }
+func samePoint(a, b s2.Point) bool       { return exactref.SamePoint(a, b) }
+func ranksOf(pts []s2.Point) []int       { return exactref.RanksOf(pts) }
 
-// det of the rows a, b, c by cofactor expansion along the first row
-func rdet(a, b, c rvec) *big.Rat {
-	m0 := rsub(rmul(b[1], c[2]), rmul(b[2], c[1]))
-	m1 := rsub(rmul(b[2], c[0]), rmul(b[0], c[2]))
-	m2 := rsub(rmul(b[0], c[1]), rmul(b[1], c[0]))
-	return radd(radd(rmul(a[0], m0), rmul(a[1], m1)), rmul(a[2], m2))
-}
-
-func oracleDetSign(a, b, c s2.Point) int { return rdet(rv(a), rv(b), rv(c)).Sign() }
-
-// lexicographic order on the exact coordinate values (so -0 == +0)
-func lexCmp(a, b s2.Point) int {
-	for _, d := range [][2]float64{{a.X, b.X}, {a.Y, b.Y}, {a.Z, b.Z}} {
-		if d[0] < d[1] {
-			return -1
-		}
-		if d[0] > d[1] {
-			return 1
-		}
-	}
-	return 0
-}
-
-func samePoint(a, b s2.Point) bool { return a.X == b.X && a.Y == b.Y && a.Z == b.Z }
-
-// ranksOf gives every point of a set of pairwise distinct points its position in the
-// lexicographic order of the set.
-func ranksOf(pts []s2.Point) []int {
-	idx := make([]int, len(pts))
-	for i := range idx {
-		idx[i] = i
-	}
-	sort.Slice(idx, func(i, j int) bool { return lexCmp(pts[idx[i]], pts[idx[j]]) < 0 })
-	r := make([]int, len(pts))
-	for pos, i := range idx {
-		r[i] = pos
-	}
-	return r
-}
-
-// oraclePerturbedSign evaluates the DEFINITION of the perturbation scheme, not the table:
-// the point of rank k (k = 0 for the lexicographically smallest point of the whole set)
-// is moved by (eps^(2^(3k+2)), eps^(2^(3k+1)), eps^(2^(3k))) in (x, y, z). The determinant
-// of the three perturbed rows is expanded with the Leibniz formula into a polynomial in
-// eps (exponents are sums of distinct powers of two: represented as bit masks, compared as
-// integers); the sign for eps -> 0+ is the sign of the non-zero coefficient of lowest
-// exponent. ranks[i] is the rank of row i (rows: a, b, c in the caller's order).
-// Also returns the exponent mask of the deciding monomial (0: the plain determinant).
 func oraclePerturbedSign(rows [3]rvec, ranks [3]int) (int, uint64) {
-	perms := [][4]int{{0, 1, 2, 1}, {1, 2, 0, 1}, {2, 0, 1, 1}, {0, 2, 1, -1}, {2, 1, 0, -1}, {1, 0, 2, -1}}
-	coef := map[uint64]*big.Rat{}
-	for _, p := range perms {
-		for sub := 0; sub < 8; sub++ { // rows whose perturbation (not coordinate) is taken
-			var mask uint64
-			term := big.NewRat(int64(p[3]), 1)
-			for i := 0; i < 3; i++ {
-				col := p[i]
-				if sub&(1<<i) != 0 {
-					// column 0 = x -> bit 3k+2, 1 = y -> 3k+1, 2 = z -> 3k
-					mask |= 1 << uint(3*ranks[i]+(2-col))
-				} else {
-					term = rmul(term, rows[i][col])
-				}
-			}
-			if c, ok := coef[mask]; ok {
-				c.Add(c, term)
-			} else {
-				coef[mask] = term
-			}
-		}
-	}
-	keys := make([]uint64, 0, len(coef))
-	for k := range coef {
-		keys = append(keys, k)
-	}
-	sort.Slice(keys, func(i, j int) bool { return keys[i] < keys[j] })
-	for _, k := range keys {
-		if s := coef[k].Sign(); s != 0 {
-			return s, k
-		}
-	}
-	return 0, 0 // unreachable: the monomial of the three diagonal perturbations has coefficient +-1
+	return exactref.PerturbedSign(rows, ranks)
 }
-
-// oracleSign: sign of the (perturbed) determinant of a, b, c as rows, with the perturbation
-// taken relative to the three points only (local ranks). Points must be pairwise distinct.
-func oracleSign(a, b, c s2.Point) (int, uint64) {
-	r := ranksOf([]s2.Point{a, b, c})
-	return oraclePerturbedSign([3]rvec{rv(a), rv(b), rv(c)}, [3]int{r[0], r[1], r[2]})
-}
+func oracleSign(a, b, c s2.Point) (int, uint64) { return exactref.Sign(a, b, c) }
 
 // table branch (1..13) the sorted degenerate triple a<b<c reaches; used only to label and
 // balance the generated inputs, recomputed here with big.Rat.
